@@ -7,6 +7,8 @@ import (
 	"path/filepath"
 	"time"
 
+	"github.com/vicanso/pike/cache"
+	"github.com/vicanso/pike/config"
 	"github.com/vicanso/pike/store"
 )
 
@@ -89,6 +91,63 @@ func suiteStore(r *rng, n int) {
 	// the registry hands out one instance per url, and different urls are different stores
 	again, _ := store.NewStore("badger://" + dirs[0])
 	emit("store", "registry", b2s(again == ss[0]), b2s(ss[0] != ss[1]))
+	// a store never writes into the key it is handed (the caller's key buffer is also the shard's map key)
+	orig := storeKeys()
+	same := true
+	for i := range keys {
+		if !bytes.Equal(keys[i], orig[i]) {
+			same = false
+		}
+	}
+	// mixed-case hosts are keys like any other
+	mk := []byte("GET MiXed.Example.COM /Path?Q=1")
+	mk0 := append([]byte(nil), mk...)
+	_ = ss[0].Set(mk, []byte("v"), time.Minute)
+	_, _ = ss[0].Get(mk)
+	_ = ss[0].Delete(mk)
+	emit("store", "keyintact", b2s(same && bytes.Equal(mk, mk0)))
+	// several caches name the same store url; a reload that removes one of them leaves the store open for the
+	// others (and for the cache that is configured again later)
+	shared := "badger://" + dirs[0]
+	cache.ResetDispatchers(nil)
+	cache.ResetDispatchers([]config.CacheConfig{{Name: "sa", Size: 10, HitForPass: "5m", Store: shared}, {Name: "sb", Size: 10, HitForPass: "5m", Store: shared}})
+	cache.ResetDispatchers([]config.CacheConfig{{Name: "sa", Size: 10, HitForPass: "5m", Store: shared}})
+	e1 := ss[0].Set(keys[0], []byte("after-reload"), time.Minute)
+	d1, e2 := ss[0].Get(keys[0])
+	cache.ResetDispatchers(nil)
+	e3 := ss[0].Set(keys[1], []byte("after-removal"), time.Minute)
+	emit("store", "shared", b2s(e1 == nil && e2 == nil && string(d1) == "after-reload" && e3 == nil))
+	// overlapping first uses of one url (the initial update and the watcher's callback both build the caches):
+	// everybody gets the one instance
+	dir3 := filepath.Join(base, fmt.Sprintf("store-%d-c", os.Getpid()))
+	_ = os.RemoveAll(dir3)
+	_ = os.MkdirAll(dir3, 0o755)
+	defer os.RemoveAll(dir3)
+	res := make(chan store.Store, 6)
+	start := make(chan struct{})
+	for g := 0; g < 6; g++ {
+		go func() {
+			<-start
+			s, err := store.NewStore("badger://" + dir3)
+			if err != nil {
+				s = nil
+			}
+			res <- s
+		}()
+	}
+	close(start)
+	var first store.Store
+	all := true
+	for g := 0; g < 6; g++ {
+		s := <-res
+		if g == 0 {
+			first = s
+		}
+		if s == nil || s != first {
+			all = false
+		}
+	}
+	emit("store", "concurrent-open", b2s(all))
 	_ = store.Close()
 }
 
